@@ -20,6 +20,9 @@ def run(ctx):
         if l["how"] == "flip":
             w = widths.get(l["field"], 8)
             bits = list(range(w)) if thorough else sorted({0, 7, w - 1, rng.randrange(w), rng.randrange(w)})
+        elif l["how"] in ("flip2", "swap"):
+            w = widths.get(l["field"], 8)
+            bits = list(range(0, w, 3)) if thorough else sorted({rng.randrange(w), rng.randrange(w)})
         for b in bits:
             sid += 1
             scs.append(S.mk(sid, "lie", "handshake-lie", steps, fresh=True,
